@@ -105,5 +105,9 @@ SkeletonValid == LET f == Final(def) IN f.v = "acc" /\ f.irr = {} /\ f.devs = {}
 RequireExact == \A e \in Exts(def) :
                    RunSeq(T, InitState, ReqToks(Exts(def) \ {e}) \o Skel(def) \o <<EOFTok>>).v = "rej"
 
-Emit == PrintT(ToJson(<<def, Skel(def), SetToSeq(Exts(def))>>))
+TreeOutF(s) == [i \in 1..Len(s.nodes) |->
+                  <<s.nodes[i].name, s.nodes[i].par, s.nodes[i].role, s.nodes[i].args, s.nodes[i].blk>>]
+\* the tree of the filter alone (no require): what the generated text must parse to, whatever the order of its tags
+SkelTree == TreeOutF(RunSeq(T, AllExts, Skel(def) \o <<EOFTok>>))
+Emit == PrintT(ToJson(<<def, Skel(def), SetToSeq(Exts(def)), SkelTree>>))
 =============================================================================
